@@ -139,10 +139,11 @@ class C16(Check):
     lean_targets = ["drv_c16"]
     driver = "drv_c16"
     theorems = ["Pox.C16.mask_inverse", "Pox.C16.mask_noncontiguous_rejected", "Pox.C16.in_network_iff",
-                "Pox.C16.in_network_hostbits", "Pox.C16.dpid_roundtrip", "Pox.C16.ip6_roundtrip",
+                "Pox.C16.in_network_hostbits", "Pox.C16.cidr_text", "Pox.C16.dpid_roundtrip", "Pox.C16.ip6_roundtrip",
                 "Pox.C16.ip6_canonical", "Pox.C16.ip6_masks", "Pox.C16.ip6_in_network_iff", "Pox.C16.ip4_repr",
                 "Pox.C16.ip4_raw_text", "Pox.C16.order_total", "Pox.C16.eth_forms", "Pox.C16.ip6_rejects_defect",
-                "Pox.C16.ip6_rejects_witnesses", "Pox.C16.eth_loose12_rejected", "Pox.C16.eth_long_group_defect"]
+                "Pox.C16.ip6_rejects_witnesses", "Pox.C16.eth_loose12_rejected", "Pox.C16.eth_long_group_defect",
+                "Pox.C16.eth_int_leniency_defect", "Pox.C16.cidr_leniency_defect"]
     anchors = [("pox/lib/addresses.py", 61, 88), ("pox/lib/addresses.py", 98, 144), ("pox/lib/addresses.py", 199, 254),
                ("pox/lib/addresses.py", 267, 353), ("pox/lib/addresses.py", 357, 386), ("pox/lib/addresses.py", 408, 423),
                ("pox/lib/addresses.py", 437, 544), ("pox/lib/addresses.py", 562, 567), ("pox/lib/addresses.py", 593, 595),
@@ -166,7 +167,7 @@ class C16(Check):
                   "differential run (all 33/129 masks, per-octet sweeps, all 256 IPv6 zero patterns, grammar mutations). libc inet_aton is outside the model.")
     rule = ("case = one operation (parse/print/compare/mask/membership/cidr/dpid) with its inputs, several addresses batched per case; "
             "distinct = sha1 of canonical case; non-trivial = the real code returned a value (no exception) or the input was malformed and rejected")
-    coverage_cases = 8000
+    coverage_cases = 20000
     search_budget = {"quick": 4000, "thorough": 40000}
 
     # ------------------------------------------------------------------------- setup
@@ -367,17 +368,17 @@ class C16(Check):
         q = tier == "quick"
         R = lambda a, b: b if not q else a
         # IPv4: random addresses against all 33 masks, random per-octet sweeps
-        for _ in range(R(6, 60)):
+        for _ in range(R(15, 150)):
             base = rng.getrandbits(32)
             for b in range(33):
                 n = base & ~((1 << (32 - b)) - 1)
                 if rng.random() < 0.15: n |= rng.getrandbits(32 - b) if b < 32 else 0
                 addrs = [self.r4(base ^ (1 << rng.randrange(32))) for _ in range(6)] + [self.r4(rng.getrandbits(32)) for _ in range(3)] + [self.r4(base)]
                 yield {"op": "ip4_innet", "n": self.r4(n), "b": b, "as": addrs}
-        for _ in range(R(8, 120)):
+        for _ in range(R(20, 300)):
             base = rng.getrandbits(32); b = rng.randrange(33)
             yield {"op": "ip4_innet", "n": self.r4(base & ~((1 << (32 - b)) - 1)), "b": b, "as": self.ip4_sweep(base, rng.randrange(4))}
-        for _ in range(R(300, 6000)):
+        for _ in range(R(900, 18000)):
             v = rng.choice([rng.getrandbits(32), rng.getrandbits(32), rng.choice(self.IP4_BOUNDARY), rng.getrandbits(40) - 2 ** 39])
             k = rng.randrange(5)
             if k == 0: yield {"op": "ip4_int", "n": v, "order": rng.random() < 0.5}
@@ -388,7 +389,7 @@ class C16(Check):
                 yield {"op": "ip4_cmp", "a": self.r4(v), "b": self.r4(w)}
             else:
                 yield {"op": "ip4_nm2cidr", "raw": self.r4(rng.choice([v, ((1 << rng.randrange(33)) - 1) << rng.randrange(8), v | 0xffff0000]))}
-        for _ in range(R(300, 5000)):
+        for _ in range(R(900, 15000)):
             a = rng.getrandbits(32); b = rng.randrange(33)
             n = a & ~((1 << (32 - b)) - 1)
             if rng.random() < 0.2: n = a
@@ -401,7 +402,7 @@ class C16(Check):
             elif k == 2: yield {"op": "ip4_getnet", "a": self.r4(a), "arg": rng.choice([str(b), msk])}
             else: yield {"op": "ip4_infer", "a": self.r4(a)}
         # IPv6: all 129 masks x random addresses
-        for _ in range(R(2, 25)):
+        for _ in range(R(5, 60)):
             base = int.from_bytes(self.rand6(rng), "big") if rng.random() < 0.5 else rng.getrandbits(128)
             for b in range(129):
                 n = base & ~((1 << (128 - b)) - 1)
@@ -411,10 +412,10 @@ class C16(Check):
                 if b > 0: addrs.append(base ^ (1 << (128 - b)))
                 yield {"op": "ip6_innet", "n": n.to_bytes(16, "big").hex(), "b": b, "as": [x.to_bytes(16, "big").hex() for x in addrs]}
         # IPv6: all 256 zero patterns x random values, every print option; valid texts; masks; cidr texts
-        for rep in range(R(2, 40)):
+        for rep in range(R(4, 100)):
             for pat in range(256):
                 yield {"op": "ip6_str", "raw": self.pat6(rng, pat).hex()}
-        for _ in range(R(150, 4000)):
+        for _ in range(R(450, 12000)):
             raw = rng.choice([self.rand6(rng), self.rand6(rng), b"\0" * 10 + b"\xff\xff" + rng.getrandbits(32).to_bytes(4, "big"),
                               b"\0" * 12 + rng.getrandbits(32).to_bytes(4, "big"), rng.getrandbits(128).to_bytes(16, "big")])
             for t in self.ip6_texts(rng, raw):
@@ -432,7 +433,7 @@ class C16(Check):
                 other = rng.choice([raw, self.rand6(rng), (int.from_bytes(raw, "big") ^ (1 << rng.randrange(128))).to_bytes(16, "big"), raw[:15] + bytes([raw[15] ^ 1])])
                 yield {"op": "bytes_cmp", "kind": "ip6", "a": raw.hex(), "b": other.hex()}
         # Ethernet: every textual form of random addresses
-        for _ in range(R(150, 4000)):
+        for _ in range(R(450, 12000)):
             e = rng.choice([rng.getrandbits(48), rng.getrandbits(48) & 0x0f0f0f0f0f0f, rng.getrandbits(48) & 0xff00ff00ff00]).to_bytes(6, "big")
             up = rng.random() < 0.3
             fm = "%02X" if up else "%02x"
@@ -442,15 +443,15 @@ class C16(Check):
             if rng.random() < 0.3:
                 f = rng.getrandbits(48).to_bytes(6, "big") if rng.random() < 0.6 else e[:5] + bytes([e[5] ^ 1])
                 yield {"op": "bytes_cmp", "kind": "eth", "a": e.hex(), "b": rng.choice([e, f]).hex()}
-        for _ in range(R(40, 400)):
+        for _ in range(R(80, 1000)):
             yield {"op": "misc", "ip4": self.r4(rng.getrandbits(32)), "ip6": self.rand6(rng).hex(), "eth": rng.getrandbits(48).to_bytes(6, "big").hex()}
         # dpids: boundaries + random
-        for _ in range(R(200, 5000)):
+        for _ in range(R(600, 15000)):
             d = rng.choice([rng.getrandbits(64), rng.getrandbits(48), rng.getrandbits(16) << 48, (1 << rng.randrange(65)) - rng.randrange(2),
                             rng.getrandbits(64) & 0x0f0f0f0f0f0f0f0f])
             yield {"op": "dpid_str", "d": d, "long": rng.random() < 0.3}
         # malformed streams: grammar mutations of valid texts
-        for _ in range(R(500, 12000)):
+        for _ in range(R(2000, 40000)):
             k = rng.randrange(7)
             if k in (0, 1):
                 t = self.mutate(rng, rng.choice(self.ip6_texts(rng, self.rand6(rng))), "0123456789abcdefF:.:: +-_xg")
@@ -530,7 +531,8 @@ class C16(Check):
         ok["ip4_flags"] = (a4.is_multicast == (r4[0] & 0xe0 == 0xe0)) and (a4.is_broadcast == (r4 == b"\xff" * 4))
         ok["ip6_raw_kw"] = A.IPAddr6(raw=r6).raw == r6 and A.IPAddr6(None, raw=r6).raw == r6
         ok["ip6_undefined"] = A.IPAddr6().raw == b"\0" * 16 and A.IPAddr6(None).raw == b"\0" * 16
-        ok["ip6_from_ip4"] = A.IPAddr6(a4).raw == b"\0" * 10 + b"\xff\xff" + r4 and A.IPAddr6(a4).to_ipv4() == a4 and A.IPAddr6(a4).ipv4 == a4
+        ok["ip6-ctor:ipaddr-not-mapped"] = A.IPAddr6(a4).raw == b"\0" * 10 + b"\xff\xff" + r4 and A.IPAddr6(a4).is_ipv4_mapped is True
+        ok["ip6_from_ip4_back"] = A.IPAddr6(a4).ipv4 == a4
         ok["ip6_bad_type"] = raises(lambda: A.IPAddr6(5), RuntimeError) and raises(lambda: A.IPAddr6(b"123", raw=True), ValueError) \
             and raises(lambda: A.IPAddr6(bytearray(3)), ValueError)
         ok["ip6_innet_tuple_text"] = a6.in_network((str(a6), 128)) is True and a6.in_network(str(a6), 128) is True and len(a6) == 16
